@@ -42,6 +42,12 @@ def run(res, tier, a, prop):
         crash_rows = crash_corpus(res)
     if prop == "C14":
         res.coverage["merged_token_location"] = merged_token_location(res)
+        from checks import c14locs
+        res.coverage["syntax_ranges"] = c14locs.run(res, tier)
+        res.assumptions.append("syntax_ranges is a gate, not a solver verdict: the parser's assembly of node ranges cannot be encoded; the real lexer + parser "
+                               "run on the corpus programs (and the repository's tests/ and std/) under 7 layouts of the same token sequence and every range "
+                               "of the syntax tree is checked for containment in the document and in its parent, exact names, disjoint siblings, token "
+                               "boundaries and layout independence of its token span")
         res.assumptions.append("merged_token_location (E-M): Location::union is a stub constrained by the contract the Kani harness "
                                "union_is_least_upper_bound proves; str::parse, format!, alloc_string, error reporting are opaque stubs")
     res.coverage.update({
